@@ -24,8 +24,10 @@ ASSUMPTIONS = ["httpx.Response decoding (json(), text, content) is trusted",
                "text/*: raw text or schema-decoded text accepted; octet-stream: file object or bytes accepted; empty-schema JSON: value or None accepted"]
 
 STATUSES = [200, 201, 204, 404, 500]
+# bodies of responses with an undocumented status: JSON, bytes that are not UTF-8 (a proxy's latin-1 / binary error page), nothing
+UNDOC_BODIES = [(b'{"unexpected": true}', "application/json", "json"), (b"caf\xe9 \xff\xfe\x00 page", "text/html; charset=latin-1", "non-utf8"), (b"", None, "empty")]
 MEDIAS = ["application/json", "application/vnd.x+json", "application/json; charset=utf-8", "text/plain", "text/html",
-          "application/octet-stream", "none", "xml-then-json", "component-ref"]
+          "application/octet-stream", "none", "xml-then-json", "component-ref", "component-ref-described"]
 RKINDS = ["model_ref", ["array", "model_ref"], "str", "int", "num", "bool", "date", "datetime", "uuid", "enum_str", "enum_int",
           ["union", "model_ref", "model2"], ["union", "int", "str"], "inline_object", "any", "no-schema", ["array", "int"],
           ["array", "date"], ["nullable", "model_ref", "oneof"], "file", "null"]
@@ -70,6 +72,8 @@ def _response_obj(media, kind, comps, components_responses, name="R"):
     if media.startswith("component-ref"):
         name = media.partition(":")[2] or name        # "component-ref:<name>": several statuses share ONE reusable response
         components_responses[name] = {"description": "d", "content": {"application/json": mt}}
+        if media == "component-ref-described":        # 3.1: a Reference Object may carry its own summary / description
+            return {"$ref": f"#/components/responses/{name}", "description": "described at the point of use", "summary": "s"}
         return {"$ref": f"#/components/responses/{name}"}
     return {"description": "d", "content": {media: mt}}
 
@@ -321,29 +325,30 @@ def run_case(p):
         has_plain = hasattr(mod, "sync")
         for st in undocumented:
             for raise_flag in (False, True):
-                outs = run_all(st, b'{"unexpected": true}', "application/json", raise_flag)
-                steps += len(outs)
-                for variant, r in outs.items():
-                    k = f"{key}/undocumented/{'raise' if raise_flag else 'quiet'}"
-                    if raise_flag:
-                        exc = r.get("exc")
-                        if r["ok"] or type(exc).__name__ != "UnexpectedStatus" or not isinstance(exc, errors_mod.UnexpectedStatus):
-                            viol.append({"oracle": "undocumented", "site": variant.split("_")[0], "key": k,
-                                         "detail": f"{variant} on undocumented {st} with raise_on_unexpected_status: " + (f"returned {r.get('value')!r}" if r["ok"] else f"raised {exc!r}")})
-                        elif getattr(exc, "status_code", None) != st or getattr(exc, "content", None) != b'{"unexpected": true}':
-                            viol.append({"oracle": "undocumented", "site": variant.split("_")[0], "key": k + "/payload",
-                                         "detail": f"UnexpectedStatus carries {getattr(exc, 'status_code', None)!r} / {getattr(exc, 'content', None)!r}"})
-                    else:
-                        if not r["ok"]:
-                            viol.append({"oracle": "undocumented", "site": variant.split("_")[0], "key": k + f"/{err_class(r['exc'])}",
-                                         "detail": f"{variant} on undocumented {st} raised {r['exc']!r}"})
+                for ubody, uctype, uname in UNDOC_BODIES:
+                    outs = run_all(st, ubody, uctype, raise_flag)
+                    steps += len(outs)
+                    for variant, r in outs.items():
+                        k = f"{key}/undocumented/{'raise' if raise_flag else 'quiet'}" + (f"/{uname}" if uname != "json" else "")
+                        if raise_flag:
+                            exc = r.get("exc")
+                            if r["ok"] or type(exc).__name__ != "UnexpectedStatus" or not isinstance(exc, errors_mod.UnexpectedStatus):
+                                viol.append({"oracle": "undocumented", "site": variant.split("_")[0], "key": k,
+                                             "detail": f"{variant} on undocumented {st} with raise_on_unexpected_status: " + (f"returned {r.get('value')!r}" if r["ok"] else f"raised {exc!r}")})
+                            elif getattr(exc, "status_code", None) != st or getattr(exc, "content", None) != ubody:
+                                viol.append({"oracle": "undocumented", "site": variant.split("_")[0], "key": k + "/payload",
+                                             "detail": f"UnexpectedStatus carries {getattr(exc, 'status_code', None)!r} / {getattr(exc, 'content', None)!r}"})
                         else:
-                            val = r["value"]
-                            parsed = val.parsed if variant.endswith("detailed") else val
-                            if parsed is not None:
-                                viol.append({"oracle": "undocumented", "site": variant.split("_")[0], "key": k, "detail": f"{variant} on undocumented {st} parsed {parsed!r}"})
-                            if variant.endswith("detailed") and (int(val.status_code) != st or val.content != b'{"unexpected": true}'):
-                                viol.append({"oracle": "undocumented", "site": variant.split("_")[0], "key": k + "/raw", "detail": f"raw status/content not echoed: {val!r}"})
+                            if not r["ok"]:
+                                viol.append({"oracle": "undocumented", "site": variant.split("_")[0], "key": k + f"/{err_class(r['exc'])}",
+                                             "detail": f"{variant} on undocumented {st} raised {r['exc']!r}"})
+                            else:
+                                val = r["value"]
+                                parsed = val.parsed if variant.endswith("detailed") else val
+                                if parsed is not None:
+                                    viol.append({"oracle": "undocumented", "site": variant.split("_")[0], "key": k, "detail": f"{variant} on undocumented {st} parsed {parsed!r}"})
+                                if variant.endswith("detailed") and (int(val.status_code) != st or val.content != ubody):
+                                    viol.append({"oracle": "undocumented", "site": variant.split("_")[0], "key": k + "/raw", "detail": f"raw status/content not echoed: {val!r}"})
         _ = has_plain
     seen, uniq = set(), []
     for v in viol:
